@@ -541,6 +541,9 @@ func genTableQuery(g *hc.Gen, ansi bool) string {
 var tableFiles = map[string]string{
 	"t.csv": "a,b,c\n1,x,10\n2,y,\n3,x,10\n4,,30\n5,y,\n6,z,20\n2,y,\n,x,20\n7,,\n",
 	"u.csv": "a,d\n1,p\n2,q\n2,r\n9,s\n,t\n3,\n",
+	// op c18.lbl: the columns x0..x3 of the model's vocabulary and columns whose names need back quotes (opx.go quotedColumns)
+	"xt.csv": "x0,x1,x2,x3,\"y  z\",\"y\u3000z\",\"y\u00a0z\",\" y\",\"y\tz\",\"y z\"\n" +
+		"1,a,10,a  b,p,q,r,s,t,u\n2,a b,,a b,P,,r,s,t,v\n3,,30,a\u3000b,,q,r,,t,w\n,x y,2,A,p,q,,s,,u\n-5,a  b,10,1,p,q,r,s,t,\n",
 }
 
 // clauseMatrix: every combination of the optional parts of the grammar's productions (each production's options
